@@ -32,3 +32,5 @@ def run(R):
     R.verify_noub("ceil/no-UB", [a], [c], D)
     R.witness("ceil/reach-noninteger", [a], [c], z3.And(D, z3.Not(intval(a))), z3.Not(isnan_raw(c.out)))
     R.witness("floor/reach-negative", [a], [f], z3.And(D, a < 0), f.out < a)
+    # the optimised code computes what the source computes (every wrapper, clang -O2)
+    R.tv_guard(h, UNITS)
